@@ -178,6 +178,7 @@ class Monitor:
         self.in_second_fix = False
         self.map_dirty = True
         self.list_key = None
+        self.tags0 = {id(t): tuple(t.code_tags) for t in oFile.lAllObjects if t.code_tags}  # code tags as assigned when the file was read
         real_update = oFile.update
 
         def update(lUpdates, bUpdateMap, _real=real_update):
@@ -280,6 +281,20 @@ class Monitor:
         self.add("C18:region_of_interest_is_slice", ok, r)
 
     def on_change(self, r, before, after, updates):
+        if "C11" in self.want and self.tags0:
+            amap = {id(t): v for t, v in after}
+            cl = []
+            for t, v in before:
+                if is_layout(t):
+                    continue
+                tags = self.tags0.get(id(t))
+                if tags and (r.unique_id in tags or "all" in tags):
+                    if id(t) not in amap:
+                        cl.append(False)
+                    elif amap[id(t)] is not v:
+                        cl.append(Eq(amap[id(t)], v))
+            if cl:
+                self.add("C11:tagged_token_untouched_by_its_rule", And(cl), r)
         phase = r.phase
         groups = set(r.groups)
         structural = phase == 1 or "structure" in groups
@@ -1163,3 +1178,119 @@ def make_L05b():
 
 
 L05b = make_L05b()
+
+
+# ---------------------------------------------------------------- C11: code tags through the whole pipeline
+_VIOL_BY_LINE = {}
+
+
+def violations_by_line(fixture):
+    """concrete pre-run: {line number: [rule ids reporting there]} under the default configuration, all phases"""
+    if fixture not in _VIOL_BY_LINE:
+        conf = get_conf2("default")
+        o = vhdlFile_pkg.vhdlFile(read_fixture(fixture))
+        o.set_indent_map(conf.dIndent)
+        rl = rule_list.rule_list(o, conf.severity_list)
+        rl.configure(conf)
+        rl.check_rules(bAllPhases=True)
+        d = {}
+        for r in rl.rules:
+            if r.fixable:
+                for v in r.violations:
+                    d.setdefault(int(v.get_line_number()), [])
+                    if r.unique_id not in d[int(v.get_line_number())]:
+                        d[int(v.get_line_number())].append(r.unique_id)
+        _VIOL_BY_LINE[fixture] = d
+    return _VIOL_BY_LINE[fixture]
+
+
+def tagged_pipeline(eng, p):
+    fixture, line = p["fixture"], p["line"]  # 0-based line index with at least one fixable violation
+    lines = read_fixture(fixture)
+    rules_here = violations_by_line(fixture).get(line + 1, [])[:3]
+    mode = ["wrap_bare", "next_line", "wrap_rule"][eng.choose("tagmode", 3)]
+    rid = rules_here[eng.choose("rule", len(rules_here))] if (mode != "wrap_bare" and rules_here) else None
+    if mode != "wrap_bare" and rid is None:
+        return True
+    hi = min(len(lines) - 1, line + eng.choose("span", 2))
+    indent = "  "
+    if mode == "wrap_bare":
+        new = lines[:line] + [indent + "-- vsg_off"] + lines[line:hi + 1] + [indent + "-- vsg_on"] + lines[hi + 1:]
+    elif mode == "next_line":
+        new = lines[:line] + [indent + "-- vsg_disable_next_line " + rid] + lines[line:]
+    else:
+        new = lines[:line] + [indent + "-- vsg_off " + rid] + lines[line:hi + 1] + [indent + "-- vsg_on " + rid] + lines[hi + 1:]
+    try:
+        oFile = vhdlFile_pkg.vhdlFile(list(new))
+    except vsg_exceptions.ClassifyError:
+        return True  # the tag comment lands where VSG does not accept a comment line: outside the quantifier
+    conf = get_conf2(p.get("conf", "default"))
+    oFile.set_indent_map(conf.dIndent)
+    rl = rule_list.rule_list(oFile, conf.severity_list)
+    rl.configure(conf)
+    mon = Monitor(oFile, rl, want=("C11",))
+    rl.fix()
+    clauses = list(mon.clauses)
+    # after the fix run: what is reported for a tagged rule lies outside its tagged tokens (checked against the tags given at parse time)
+    rl.clear_violations()
+    rl.check_rules(bAllPhases=True)
+    for r in rl.rules:
+        for v in r.violations:
+            try:
+                toks = v.oTokens.get_tokens()
+            except Exception:
+                continue
+            bad = any((r.unique_id in mon.tags0.get(id(t), ()) or "all" in mon.tags0.get(id(t), ())) for t in toks if not is_layout(t))
+            if bad:
+                clauses.append(("C11:violation_reported_on_tagged_token@" + r.unique_id, False))
+    clauses.append(("C11:tags_present", any(mon.tags0.values())))
+    return clauses
+
+
+def tagged_describe(values, p):
+    return {"fixture": p["fixture"], "line": p["line"] + 1, "tagmode": ["wrap_bare", "next_line", "wrap_rule"][values.get("tagmode", 0)], "rule_index": values.get("rule"), "span": values.get("span"),
+            "rules_reporting_on_line": violations_by_line(p["fixture"]).get(p["line"] + 1, [])[:3]}
+
+
+def make_L11():
+    class L11(Harness):
+        name = "L11"
+        prop = "C11"
+        parallel_params = True
+        per_clause_findings = True
+        title = "code tags through the whole product: a rule never changes (nor, after the fix run, reports on) a token that carried its tag - or the bare tag - when the file was read"
+        functions = ("vsg.vhdlFile", "vsg.vhdlFile.code_tags", "vsg.rule_list", "vsg.rule", "vsg.rules", "vsg.parser")
+        stubs = ()
+        assumptions = ("tag comments are inserted on their own line before/after corpus lines that have a fixable violation",)
+        bounds = "corpus fixtures x a line with a fixable violation x {bare vsg_off/vsg_on around 1-2 lines, vsg_disable_next_line <rule>, vsg_off/on <rule>} with <rule> one of up to 3 rules reporting on that line (engine-forked); quick 40 lines, thorough 400"
+        outside = "tags at other positions; the comparison with a neutral-comment twin for violations partly inside a tagged region"
+        min_conclusive_share = 0.5
+        exception_props = ("C11", "C19")
+
+        def params(self, tier):
+            seed = int(os.environ.get("VERIF_SEED", "0") or 0) % NSEEDS
+            rnd = random.Random(11000 + seed)
+            n = 40 if tier == "quick" else 400
+            out = []
+            for f in rnd.sample(ALL_FIXTURES, min(len(ALL_FIXTURES), n * 2)):
+                vb = violations_by_line(f)
+                cand = sorted(k for k in vb if k >= 2)
+                if not cand:
+                    continue
+                out.append({"fixture": f, "line": rnd.choice(cand) - 1, "_limits": {"shard_paths": 40}})
+                if len(out) >= n:
+                    break
+            return out
+
+        def run(self, eng, p):
+            return tagged_pipeline(eng, p)
+
+        def describe(self, values, p):
+            return tagged_describe(values, p)
+
+        signature = staticmethod(l_signature)
+
+    return register(L11)
+
+
+L11 = make_L11()
